@@ -378,7 +378,8 @@ def gen_goal(rng, depth, vars_, preds, app, budget):
     if r < 0.49:
         return ('not', gen_goal(rng, 0, vars_, preds, app, budget))
     if r < 0.66:
-        return ('unify', pick(), gen_term(rng, 2, vars_))
+        x = pick()
+        return ('unify', x, gen_term(rng, 2, [v for v in vars_ if v != x[1]]))
     if r < 0.70:
         return ('unify', pick(), pick())
     if r < 0.78 and budget[0] >= 3:
@@ -452,7 +453,7 @@ def tuple_goal(vs):
     """everything observed goes into ONE binding: run_query converts each binding separately, so variables
     shared between two bindings are not recognisable in its result."""
     v = "v(" + ",".join(vs) + ")" if vs else "v"
-    return "( acyclic_term(%s) -> copy_term(%s, R__, Gs__), K__ = k(R__, Gs__) ; K__ = cyclic )" % (v, v)
+    return "( acyclic_term(%s) -> copy_term(%s, R__, Gs__), K__ = k(R__, Gs__) ; throw(cyclic__) )" % (v, v)
 
 
 def round1_lines(batch):
@@ -551,6 +552,8 @@ def trace_of(items):
         if it == "false":
             toks.append("F")
             break
+        if it == "exception('cyclic__')":
+            return None, None, "cyclic solution"
         if it.startswith("exception(") or it.startswith("error("):
             toks.append("E")
             break
